@@ -108,123 +108,207 @@ func (w *lockedWriter) events() (out []auditevent.AuditEvent) {
 	return out
 }
 
+// c03scen is one pair of halves delivered against each other through Auditd.Read.
+type c03scen struct {
+	name     string
+	preLogin *common.RemoteUserLogin // delivered (and settled) before the halves
+	preLines []string
+	preWant  int      // events on the output once the preparation has settled
+	lines    []string // the record half (its goroutine is the parser / reassembler / callback chain)
+	login    common.RemoteUserLogin
+	post     []string // delivered after both halves, in order
+	want     []c03want
+	total    int // events on the output when everything has been handed over
+}
+
+type c03want struct {
+	ses   string
+	sec   int64
+	ident string
+}
+
 func runC03read(t *testing.T, run *mc.Run) int {
 	h := &logPoints{}
 	enc := zapcore.NewJSONEncoder(zap.NewProductionEncoderConfig())
 	core := pointCore{zapcore.NewCore(enc, zapcore.AddSync(io.Discard), zapcore.DebugLevel), h}
 	auditd.SetLogger(zap.New(core).Sugar())
 	defer auditd.SetLogger(mc.DebugLogger())
-	lines := []string{
-		bindLines("7"),
-		auditgen.Simple("USER_START", 1700000021, 3001, "7", "4242", "success").Recs[0].Line,
-		auditgen.Simple("USER_ACCT", 1700000022, 3002, "7", "4242", "success").Recs[0].Line, // flushes the one before
+	line := func(typ string, sec int64, seq int, ses, pid string) string {
+		res := "success"
+		if typ == "LOGIN" {
+			res = "1"
+		}
+		return auditgen.Simple(typ, sec, seq, ses, pid, res).Recs[0].Line
+	}
+	lgA, lgB := mkLogin(bindPID, "1"), mkLogin(4343, "2")
+	scens := []c03scen{
+		{name: "login || its LOGIN record",
+			lines: []string{
+				bindLines("7"),
+				line("USER_START", 1700000021, 3001, "7", "4242"),
+				line("USER_ACCT", 1700000022, 3002, "7", "4242"), // flushes the one before
+			},
+			login: lgA,
+			want:  []c03want{{"7", 1600000000, identity(lgA.Source)}, {"7", 1700000021, identity(lgA.Source)}}, total: 2},
+		// a correlated session ends while the login of another connection arrives: whatever the correlator does when
+		// a session ends (release of state, bookkeeping, notifications) happens next to the Read loop's own call
+		{name: "end of a correlated session || login of another pid",
+			preLogin: &lgA,
+			preLines: []string{
+				bindLines("7"),
+				line("USER_START", 1700000021, 3001, "7", "4242"),
+				line("USER_ACCT", 1700000022, 3002, "7", "4242"),
+			},
+			preWant: 2,
+			lines: []string{
+				line("CRED_DISP", 1700000023, 3003, "7", "4242"),
+				line("USER_ACCT", 1700000024, 3004, "99", "9999"), // (an untracked session's record: flushes the one before)
+			},
+			login: lgB,
+			post: []string{
+				line("LOGIN", 1700000030, 3050, "8", "4343"),
+				line("USER_START", 1700000031, 3051, "8", "4343"),
+				line("USER_ACCT", 1700000032, 3052, "8", "4343"),
+			},
+			want: []c03want{{"7", 1700000022, identity(lgA.Source)}, {"7", 1700000023, identity(lgA.Source)}, {"8", 1700000030, identity(lgB.Source)}, {"8", 1700000031, identity(lgB.Source)}}, total: 6},
 	}
 	n, points := 0, 0
 	var samples []any
-	for _, side := range []string{"login-held-at-a-log-point", "record-held-at-a-log-point"} {
-		for k := 1; k <= 40; k++ {
-			n++
-			w := &lockedWriter{}
-			audits, logins := make(chan string), make(chan common.RemoteUserLogin)
-			ctx, cancel := context.WithCancel(context.Background())
-			a := auditd.Auditd{Audits: audits, Logins: logins, EventW: auditevent.NewDefaultAuditEventWriter(w), Health: health.NewSingleReadinessHealth(auditd.AuditdProcessorComponentName)}
-			done := make(chan error, 1)
-			go func() { done <- a.Read(ctx) }()
-			time.Sleep(20 * time.Millisecond) // start-up log statements are over
-			lg := mkLogin(bindPID, "1")
-			var wg sync.WaitGroup
-			deliverLogin := func() {
-				wg.Add(1)
+	for si, sc := range scens {
+		for _, side := range []string{"login-held-at-a-log-point", "record-held-at-a-log-point"} {
+			for k := 1; k <= 40; k++ {
+				n++
+				w := &lockedWriter{}
+				audits, logins := make(chan string), make(chan common.RemoteUserLogin)
+				ctx, cancel := context.WithCancel(context.Background())
+				a := auditd.Auditd{Audits: audits, Logins: logins, EventW: auditevent.NewDefaultAuditEventWriter(w), Health: health.NewSingleReadinessHealth(auditd.AuditdProcessorComponentName)}
+				done := make(chan error, 1)
+				deadlock := make(chan string, 1)
 				go func() {
-					defer wg.Done()
-					select {
-					case logins <- lg:
-					case <-time.After(3 * time.Second):
-					}
+					defer func() {
+						if p := recover(); p != nil { // the sync shim's "lock not acquired within the timeout"
+							deadlock <- fmt.Sprint(p)
+							done <- fmt.Errorf("panic: %v", p)
+						}
+					}()
+					done <- a.Read(ctx)
 				}()
-			}
-			deliverLines := func() {
-				wg.Add(1)
-				go func() {
-					defer wg.Done()
-					for _, l := range lines {
+				time.Sleep(20 * time.Millisecond) // start-up log statements are over
+				sendLines := func(ls []string) {
+					for _, l := range ls {
 						select {
 						case audits <- l + "\n":
 						case <-time.After(3 * time.Second):
 							return
 						}
 					}
-				}()
-			}
-			h.arm(k)
-			if side == "login-held-at-a-log-point" {
-				deliverLogin()
-			} else {
-				deliverLines()
-			}
-			reached := false
-			select {
-			case <-h.paused:
-				reached = true
-			case <-time.After(150 * time.Millisecond):
-			}
-			// the other half, while the first is held (it goes as far as the code under test lets it)
-			if side == "login-held-at-a-log-point" {
-				deliverLines()
-			} else {
-				deliverLogin()
-			}
-			time.Sleep(60 * time.Millisecond)
-			at := h.last
-			close(h.release)
-			wg.Wait()
-			// settle: everything delivered, the reassembler has handed over LOGIN and USER_START
-			var evs []auditevent.AuditEvent
-			for until := time.Now().Add(4 * time.Second); time.Now().Before(until); time.Sleep(10 * time.Millisecond) {
-				if evs = w.events(); len(evs) >= 2 {
-					break
 				}
-			}
-			time.Sleep(30 * time.Millisecond)
-			evs = w.events()
-			cancel()
-			select {
-			case <-done:
-			case <-time.After(5 * time.Second):
-			}
-			if reached {
-				points++
-			}
-			msg := ""
-			seen := map[string]int{}
-			for _, e := range evs {
-				if e.Metadata.AuditID == "7" {
-					seen[fmt.Sprint(e.LoggedAt.Unix())]++
-					if identity(&e) != identity(lg.Source) {
-						msg = "an event of the session carries another identity than its login's"
+				settle := func(atLeast int, limit time.Duration) []auditevent.AuditEvent {
+					var evs []auditevent.AuditEvent
+					for until := time.Now().Add(limit); time.Now().Before(until); time.Sleep(10 * time.Millisecond) {
+						if evs = w.events(); len(evs) >= atLeast {
+							break
+						}
+					}
+					time.Sleep(30 * time.Millisecond)
+					return w.events()
+				}
+				if sc.preLogin != nil {
+					select {
+					case logins <- *sc.preLogin:
+					case <-time.After(3 * time.Second):
+					}
+					sendLines(sc.preLines)
+					settle(sc.preWant, 4*time.Second)
+				}
+				var wg sync.WaitGroup
+				deliverLogin := func() {
+					wg.Add(1)
+					go func() {
+						defer wg.Done()
+						select {
+						case logins <- sc.login:
+						case <-time.After(3 * time.Second):
+						}
+					}()
+				}
+				deliverLines := func() {
+					wg.Add(1)
+					go func() {
+						defer wg.Done()
+						sendLines(sc.lines)
+					}()
+				}
+				h.arm(k)
+				if side == "login-held-at-a-log-point" {
+					deliverLogin()
+				} else {
+					deliverLines()
+				}
+				reached := false
+				select {
+				case <-h.paused:
+					reached = true
+				case <-time.After(150 * time.Millisecond):
+				}
+				// the other half, while the first is held (it goes as far as the code under test lets it)
+				if side == "login-held-at-a-log-point" {
+					deliverLines()
+				} else {
+					deliverLogin()
+				}
+				time.Sleep(60 * time.Millisecond)
+				at := h.last
+				close(h.release)
+				wg.Wait()
+				sendLines(sc.post)
+				// settle: everything delivered, the reassembler has handed over all but the last record
+				evs := settle(sc.total, 4*time.Second)
+				cancel()
+				select {
+				case <-done:
+				case <-time.After(5 * time.Second):
+				}
+				if reached {
+					points++
+				}
+				msg := ""
+				select {
+				case p := <-deadlock:
+					msg = "the Read loop never got the correlator's lock: " + p
+				default:
+				}
+				seen := map[string]int{}
+				for _, e := range evs {
+					key := e.Metadata.AuditID + "@" + fmt.Sprint(e.LoggedAt.Unix())
+					seen[key]++
+					for _, wn := range sc.want {
+						if wn.ses == e.Metadata.AuditID && identity(&e) != wn.ident {
+							msg = "an event of session " + wn.ses + " carries another identity than its login's"
+						}
 					}
 				}
-			}
-			for _, want := range []int64{1600000000, 1700000021} {
-				if c := seen[fmt.Sprint(want)]; c != 1 && msg == "" {
-					msg = fmt.Sprintf("the session's record with kernel time %d was emitted %d times, want once (login and LOGIN record both arrived: every sequential order correlates them)", want, c)
+				for _, wn := range sc.want {
+					if c := seen[wn.ses+"@"+fmt.Sprint(wn.sec)]; c != 1 && msg == "" {
+						msg = fmt.Sprintf("session %s's record with kernel time %d was emitted %d times, want once (every sequential order of these deliveries emits it once)", wn.ses, wn.sec, c)
+					}
 				}
-			}
-			if len(samples) < 6 && reached {
-				samples = append(samples, fmt.Sprintf("%s #%d (%q): %d events", side, k, at, len(evs)))
-			}
-			if msg != "" {
-				run.Violation("C03:read:"+side, map[string]any{"side": side, "log_point": k, "statement": at},
-					fmt.Sprintf("through Auditd.Read, %s number %d (%q) while the other half is delivered: %s", side, k, at, msg))
-			}
-			if !reached {
-				break // fewer than k log statements on this side: all its log points have been visited
+				if len(samples) < 8 && reached && k%3 == 1 {
+					samples = append(samples, fmt.Sprintf("%s: %s #%d (%q): %d events", sc.name, side, k, at, len(evs)))
+				}
+				if msg != "" {
+					run.Violation(fmt.Sprintf("C03:read:%d:%s", si+1, side), map[string]any{"scenario": sc.name, "side": side, "log_point": k, "statement": at},
+						fmt.Sprintf("through Auditd.Read, %s: %s number %d (%q) while the other half is delivered: %s", sc.name, side, k, at, msg))
+				}
+				if !reached {
+					break // fewer than k log statements on this side: all its log points have been visited
+				}
 			}
 		}
 	}
 	cov := mc.Coverage{Level: "model_checking", States: points, Transitions: n, Traces: n, Evaluations: n, Distinct: points, Exhaustive: true, Samples: samples,
-		Rule:  "the real Auditd.Read (real goroutines, real time): the goroutine delivering one half of a correlation (the login through the Read loop / the LOGIN record and a follow-up event through parser, reassembler and callback) is stopped at its k-th debug log statement for every k, the other half is delivered meanwhile, then the first is released; oracle: both records of the session are emitted exactly once with the login's identity, as in every sequential order. One preemption, at log-statement granularity, both directions. states = log points at which a goroutine was actually held",
-		Extra: map[string]any{"log_points_visited": points}}
+		Rule:  "the real Auditd.Read (real goroutines, real time), two pairs of halves {a login || its LOGIN record and a follow-up event; the credential-disposal record of a correlated session || the login of another connection, whose session follows}: the goroutine delivering one half (the login through the Read loop / the records through parser, reassembler and callback) is stopped at its k-th debug log statement for every k, the other half is delivered meanwhile, then the first is released; oracle: every record concerned is emitted exactly once with its own login's identity, as in every sequential order. One preemption, at log-statement granularity, both directions. states = log points at which a goroutine was actually held",
+		Extra: map[string]any{"log_points_visited": points, "scenarios": len(scens)}}
 	cov.Assumptions = []string{"preemption points are the debug log statements of the code under test (lock-granularity interleavings of the tracker object itself are explored by the scheduler part of C03)", "real time: a held goroutine is released after 60 ms; the OS scheduler is otherwise not controlled"}
 	return run.Finish(cov)
 }
